@@ -1,6 +1,7 @@
 import Mochi.Model.Broker
 import Mochi.Lemmas.BrokerRetained
 import Mochi.Lemmas.BrokerRetInfl
+import Mochi.Lemmas.BrokerReplay
 /-!
 # C25 — Expired messages are not delivered and expiry intervals only shrink
 
@@ -168,4 +169,49 @@ theorem C25_effective_interval (s : Server) (i qos : Nat) (dup retain : Bool) (i
   show (if minimumNZ s.caps.maxMessageExpiry me > 0 then _ else _) = _
   rw [if_pos h]
 
+
+/-- **an expired retained message is never replayed**: in the history `pre ++ [tick "retained" t] ++ post` where the
+    message stored at `topic` before the tick had expiry time `< t`, `post` contains no new retained publish on `topic`
+    (client, inline; no CONNECT of the history carries a retained will on it), the replay of ANY later subscription
+    (`publishRetainedToClient` in the final state; restrictions as in `C05_subscribe_replays_exactly`) writes no PUBLISH
+    with that topic -/
+theorem C25_expired_retained_never_replayed_seq (caps : Caps) (pre post : List Op) (t : Int) (topic : Topics.Str) (m : Msg)
+    (hpre : ∀ op ∈ pre, op.willAvoids (fun u => u = topic))
+    (hm : Topics.assocGet (run (init caps) pre).rmsgs topic = some m) (hv : m.ver = 5) (he : 0 < m.expiry)
+    (hlt : m.expiry < t)
+    (hpost : ∀ op ∈ post, op.avoids (fun u => u = topic) (fun u => u = topic) ∨ ∃ t', op = .tick "retained" t')
+    (i : Nat) (sub : Topics.Sub) (ex : Bool) (k : Nat)
+    (hc : ReplayClient (run (init caps) (pre ++ .tick "retained" t :: post)) i) (hq : sub.qos = 0)
+    (hsp : StoredPub (run (init caps) (pre ++ .tick "retained" t :: post)))
+    (hns : Topics.isSharedFilter sub.filter = false) (hrh : ((sub.rh == 1 && ex) || sub.rh == 2) = false)
+    (hne : Topics.assocGet (run (init caps) (pre ++ .tick "retained" t :: post)).rmsgs [] = none)
+    (hf : sub.filter ≠ []) (hok : Topics.specLevelsOK (Topics.splitLevels sub.filter) = true) :
+    ∀ o ∈ (publishRetainedToClient (run (init caps) (pre ++ .tick "retained" t :: post)) i sub ex k).2,
+      ∀ conn ver msg me, o = Out.wrote conn (.publish ver msg me) → msg.topic ≠ topic := by
+  have hgone : Topics.assocGet (run (init caps) (pre ++ .tick "retained" t :: post)).rmsgs topic = none := by
+    rw [run_append_rk]
+    exact C25_expired_retained_stays_gone _ t topic m post hm hv he hlt (NW_run _ pre (NW_init _ caps) hpre) hpost
+  intro o ho conn ver msg me hoe
+  obtain ⟨t', pk, hg, _, _, hpk⟩ := (replay_mem_iff _ i sub ex k hc hq hsp hns hrh (RetIdxOK_run caps _)
+    (RetKeys_run caps _) hne hf hok o).mp ho
+  have htop : pk.topic = t' := (hsp _ (assocGet_some_mem _ _ _ hg)).2.2
+  rw [hoe] at hpk
+  have hmsg : msg.topic = t' := by
+    unfold replayPacket at hpk
+    injection hpk with _ h2
+    injection h2 with _ h3 _
+    rw [h3]; exact htop
+  intro h
+  rw [hmsg] at h
+  rw [h, hgone] at hg
+  cases hg
+
 end Mochi.Broker
+
+#print axioms Mochi.Broker.C25_retained_gone_after_housekeeping
+#print axioms Mochi.Broker.C25_expired_retained_stays_gone
+#print axioms Mochi.Broker.C25_expired_retained_never_replayed_seq
+#print axioms Mochi.Broker.C25_inflight_gone_after_housekeeping
+#print axioms Mochi.Broker.C25_inflight_not_resent_after_housekeeping
+#print axioms Mochi.Broker.C25_deferred_exempt_counterexample
+#print axioms Mochi.Broker.C25_effective_interval
